@@ -54,7 +54,7 @@ PROPS = {
         'suites': [('cacheq', 300, 3000, ''), ('cachet', 150, 1500, ''), ('cacheqa', 100, 1000, '')],
         'rule': CACHE_RULE % "Cache and AsyncCache" + "ticks at arbitrary (late, irregular) virtual times, expiry instants around second boundaries, neighbours in the same bucket being updated / removed / re-TTL'd; monitors: after a tick at T nothing with bucket <= T is resident, only expired entries are swept, each swept value is reported once with its charged cost",
         'assumptions': COMMON_ASSUMPTIONS + ["the real ticker (crossbeam tick / async-io Timer) firing is runtime behaviour: ticks are labels here"],
-        'partial': "the invariant 'every resident TTL entry is listed under its storage bucket' is tied by the correspondence (buckets are part of every compared snapshot), not yet a Coq theorem; the real-time firing of the ticker is not modelled",
+        'partial': "the real-time firing of the ticker ('plus one cleanup interval') is not modelled: ticks are labels; the listing invariant and the reclamation theorems are proved for collision-free runs (every conflict hash 0); an item written before a cleanup, already due at it and admitted only afterwards is reclaimed by the next cleanup (hypothesis no_stale_admission of C05_listings_stay_later_than_the_last_cleanup)",
     },
     'C09': {
         'suites': [('cachet', 300, 3000, ''), ('cacheq', 100, 1000, ''), ('cacheqa', 100, 1000, '')],
@@ -63,19 +63,19 @@ PROPS = {
         'partial': "",
     },
     'C10': {
-        'suites': [('caches', 400, 4000, ''), ('cachesa', 200, 2000, '')],
+        'suites': [('caches', 400, 4000, ''), ('cachesa', 200, 2000, ''), ('cachel', 200, 2000, '')],
         'rule': CACHE_RULE % "Cache and AsyncCache" + "three client threads, random interleavings at every yield point (between store update and buffer send, inside the processor's item handling, around the stop handshakes), buffer sizes {1, 2, 3, 16}, wait / clear / close racing; blocked clients are diagnosed from state: a client that never comes back is a MONITOR hit; monitor: what a client sent before a wait() that returned Ok is resident or handed back",
         'assumptions': COMMON_ASSUMPTIONS + ["weak fairness of select! for 'returns in finite time' (the theorem is: never stranded + the processor can always take the next item)"],
         'partial': "finite-time return needs fairness of the randomised select!, which is an assumption about crossbeam / futures",
     },
     'C11': {
-        'suites': [('caches', 400, 4000, ''), ('cachesa', 200, 2000, ''), ('cachecfg', 100, 1000, '')],
+        'suites': [('caches', 400, 4000, ''), ('cachesa', 200, 2000, ''), ('cachel', 200, 2000, ''), ('cachecfg', 100, 1000, '')],
         'rule': CACHE_RULE % "Cache and AsyncCache" + "clear() issued with 0..buffer-size items buffered, select! arms as the implementation picks them, key re-use after clear with another TTL or none followed by ticks at the old bucket; monitors: values inserted before a completed clear() are not retrievable by lookups that began after it, empty cache at quiescence if nothing was inserted since",
         'assumptions': COMMON_ASSUMPTIONS,
         'partial': "",
     },
     'C12': {
-        'suites': [('caches', 400, 4000, ''), ('cachesa', 200, 2000, ''), ('cachecfg', 100, 1000, '')],
+        'suites': [('caches', 400, 4000, ''), ('cachesa', 200, 2000, ''), ('cachel', 300, 3000, ''), ('cachecfg', 100, 1000, '')],
         'rule': CACHE_RULE % "Cache and AsyncCache" + "close() racing other operations and other close() calls; monitors: after close() returned Ok every operation that begins is inert and leaves the snapshot unchanged, both workers have left their loops, no client is stuck",
         'assumptions': COMMON_ASSUMPTIONS,
         'partial': "async flavour: close() returns once the stop message is buffered; that the processor then takes it needs fairness of select! (the theorem is: exited or the stop message is pending); OS thread exit and the exit of workers when every handle is dropped without close() are runtime behaviour (observed by the harness), not theorems",
